@@ -262,6 +262,8 @@ class PythonTranslator(ASTTranslator):
     def postConstant(translator, node):
         node.priority = 1
         value = node.value
+        if type(value) in (int, float) and repr(value).startswith('-'):
+            node.priority = 4  # a folded negative constant binds like unary minus: (-1) ** x, (-1).real
         if type(value) is float: # for Python < 2.7
             s = str(value)
             if float(s) == value: return s
@@ -296,7 +298,9 @@ class PythonTranslator(ASTTranslator):
         return node.id
     def joined_str_content(self, node):
         result = []
-        for item in node.values:
+        # the decompiler does not wrap a single field or constant into JoinedStr
+        values = node.values if isinstance(node, ast.JoinedStr) else [node]
+        for item in values:
             if isinstance(item, ast.Constant):
                 assert isinstance(item.value, str)
                 result.append(item.value.replace('{', '{{').replace('}', '}}'))
@@ -316,7 +320,9 @@ class PythonTranslator(ASTTranslator):
     def postJoinedStr(self, node):
         return "f%r" % self.joined_str_content(node)
     def postFormattedValue(self, node):
-        return node.value.src
+        # source of a stand-alone field; inside JoinedStr the text is built by joined_str_content()
+        node.priority = 1
+        return "f%r" % self.joined_str_content(node)
 
 
 nonexternalizable_types = (ast.keyword, ast.Starred, ast.Slice, ast.List, ast.Tuple)
